@@ -81,9 +81,9 @@ Record orc := mkOrc {
 }.
 Definition orc0 : orc := mkOrc [] 0 0 (-1) true true 1 true 0 true.
 
-Inductive hres : Type :=
-| HOk (c : tctx) (rest : list Z)        (* handler returned; rest = unread part of input_buf *)
-| HExn (e : texn).
+Inductive lres : Type :=
+| LOk (c : tctx) (rest : list Z)        (* handler returned; rest = unread part of input_buf *)
+| LExn (e : texn).
 
 Definition set_state (c : tctx) (s : State) : tctx :=
   mkCtx s (t_buf c) (t_resumed c) (t_kpsk c) (t_kproxy c) (t_gen c) (t_peer_cert c).
@@ -102,8 +102,8 @@ Definition exn_of_kind (k : Z) : texn :=
   else if k =? E_ASSERT then XOther TX_AssertionError
   else XOther 9.
 
-Definition parsed {A} (r : Res (A * list Z)) (k : A -> list Z -> hres) : hres :=
-  match r with Ok (v, rest) => k v rest | Err e => HExn (exn_of_kind e) end.
+Definition parsed {A} (r : Res (A * list Z)) (k : A -> list Z -> lres) : lres :=
+  match r with Ok (v, rest) => k v rest | Err e => LExn (exn_of_kind e) end.
 
 Definition zin (x : Z) (l : list Z) : bool := existsb (Z.eqb x) l.
 Fixpoint bytes_eqb (a b : list Z) : bool :=
@@ -184,18 +184,18 @@ Definition set_peer_certificate (o : orc) (certs : list (list Z)) : option texn 
   | _ :: _ => if o_load o then None else Some (XAlert AD_bad_certificate)
   end.
 
-Definition need_schedule (c : tctx) (k : hres) : hres :=      (* self.key_schedule.<...> *)
-  if t_gen c <? 0 then HExn (XOther TX_AttributeError) else k.
+Definition need_schedule (c : tctx) (k : lres) : lres :=      (* self.key_schedule.<...> *)
+  if t_gen c <? 0 then LExn (XOther TX_AttributeError) else k.
 
 (* ---- client handlers ------------------------------------------------------------------------------ *)
-Definition client_handle_hello (g : tcfg) (c : tctx) (o : orc) (msg : list Z) : hres :=
+Definition client_handle_hello (g : tcfg) (c : tctx) (o : orc) (msg : list Z) : lres :=
   parsed (pull_server_hello msg) (fun h rest =>
     match negotiate (g_cipher_suites g) (Some [sh_cipher_suite h]) with
-    | None => HExn (XAlert AD_handshake_failure)
+    | None => LExn (XAlert AD_handshake_failure)
     | Some cipher =>
-      if negb (zin (sh_compression h) default_legacy_compression_methods) then HExn (XAlert AD_illegal_parameter) else
+      if negb (zin (sh_compression h) default_legacy_compression_methods) then LExn (XAlert AD_illegal_parameter) else
       if negb (match sh_version h with Some v => zin v default_supported_versions | None => false end)
-      then HExn (XAlert AD_illegal_parameter) else
+      then LExn (XAlert AD_illegal_parameter) else
       let sel : Res bool :=        (* Ok resumed | the exception *)
         match sh_psk h with
         | Some idx =>
@@ -209,137 +209,137 @@ Definition client_handle_hello (g : tcfg) (c : tctx) (o : orc) (msg : list Z) : 
             else Ok (t_resumed c)
         end in
       match sel with
-      | Err k => HExn (if k =? 1 then XAlert AD_illegal_parameter
+      | Err k => LExn (if k =? 1 then XAlert AD_illegal_parameter
                        else if k =? 2 then XOther TX_AttributeError else XOther TX_KeyError)
       | Ok resumed =>
           match sh_key_share h with
-          | None => HExn (XAlert AD_illegal_parameter)
+          | None => LExn (XAlert AD_illegal_parameter)
           | Some ks =>
               match client_exchange g (hd 0 (o_share o)) ks with
-              | Some e => HExn e
+              | Some e => LExn e
               | None =>
-                  HOk (mkCtx CLIENT_EXPECT_ENCRYPTED_EXTENSIONS (t_buf c) resumed None false (t_gen c + 1)
+                  LOk (mkCtx CLIENT_EXPECT_ENCRYPTED_EXTENSIONS (t_buf c) resumed None false (t_gen c + 1)
                              (t_peer_cert c)) rest
               end
           end
       end
     end).
 
-Definition client_handle_encrypted_extensions (g : tcfg) (c : tctx) (o : orc) (msg : list Z) : hres :=
+Definition client_handle_encrypted_extensions (g : tcfg) (c : tctx) (o : orc) (msg : list Z) : lres :=
   parsed (pull_encrypted_extensions msg) (fun other rest =>
     match alpn_handler g o other with
-    | Some e => HExn e
+    | Some e => LExn e
     | None =>
         need_schedule c
-          (HOk (set_state c (if t_resumed c then CLIENT_EXPECT_FINISHED
+          (LOk (set_state c (if t_resumed c then CLIENT_EXPECT_FINISHED
                              else CLIENT_EXPECT_CERTIFICATE_REQUEST_OR_CERTIFICATE)) rest)
     end).
 
-Definition client_handle_certificate_request (g : tcfg) (c : tctx) (o : orc) (msg : list Z) : hres :=
+Definition client_handle_certificate_request (g : tcfg) (c : tctx) (o : orc) (msg : list Z) : lres :=
   parsed (pull_certificate_request msg) (fun _ rest =>
-    need_schedule c (HOk (set_state c CLIENT_EXPECT_CERTIFICATE) rest)).
+    need_schedule c (LOk (set_state c CLIENT_EXPECT_CERTIFICATE) rest)).
 
-Definition client_handle_certificate (g : tcfg) (c : tctx) (o : orc) (msg : list Z) : hres :=
+Definition client_handle_certificate (g : tcfg) (c : tctx) (o : orc) (msg : list Z) : lres :=
   parsed (pull_certificate msg) (fun certs rest =>
     need_schedule c
       match set_peer_certificate o certs with
-      | Some e => HExn e
-      | None => HOk (set_state (set_peer_cert c) CLIENT_EXPECT_CERTIFICATE_VERIFY) rest
+      | Some e => LExn e
+      | None => LOk (set_state (set_peer_cert c) CLIENT_EXPECT_CERTIFICATE_VERIFY) rest
       end).
 
-Definition client_handle_certificate_verify (patched : bool) (g : tcfg) (c : tctx) (o : orc) (msg : list Z) : hres :=
+Definition client_handle_certificate_verify (patched : bool) (g : tcfg) (c : tctx) (o : orc) (msg : list Z) : lres :=
   parsed (pull_certificate_verify msg) (fun v rest =>
     match check_certificate_verify g c o (fst v) with
-    | Some e => HExn e
+    | Some e => LExn e
     | None =>
         match (if g_verify g then verify_certificate patched o else None) with
-        | Some e => HExn e
-        | None => need_schedule c (HOk (set_state c CLIENT_EXPECT_FINISHED) rest)
+        | Some e => LExn e
+        | None => need_schedule c (LOk (set_state c CLIENT_EXPECT_FINISHED) rest)
         end
     end).
 
-Definition client_handle_finished (g : tcfg) (c : tctx) (o : orc) (msg : list Z) : hres :=
+Definition client_handle_finished (g : tcfg) (c : tctx) (o : orc) (msg : list Z) : lres :=
   parsed (pull_finished msg) (fun _ rest =>
     need_schedule c
-      (if negb (o_mac o) then HExn (XAlert AD_decrypt_error)
-       else if negb (t_gen c =? 2) then HExn (XOther TX_AssertionError)       (* assert generation == 2 *)
-       else HOk (set_state (set_gen c 3) CLIENT_POST_HANDSHAKE) rest)).
+      (if negb (o_mac o) then LExn (XAlert AD_decrypt_error)
+       else if negb (t_gen c =? 2) then LExn (XOther TX_AssertionError)       (* assert generation == 2 *)
+       else LOk (set_state (set_gen c 3) CLIENT_POST_HANDSHAKE) rest)).
 
 (* + QuicConnection._handle_session_ticket *)
-Definition client_handle_new_session_ticket (g : tcfg) (c : tctx) (o : orc) (msg : list Z) : hres :=
+Definition client_handle_new_session_ticket (g : tcfg) (c : tctx) (o : orc) (msg : list Z) : lres :=
   parsed (pull_new_session_ticket msg) (fun med rest =>
-    if negb (g_ticket_cb g) then HOk c rest else
+    if negb (g_ticket_cb g) then LOk c rest else
     need_schedule c
       match med with
-      | Some v => if negb (v =? MAX_EARLY_DATA) then HExn (XQuic EC_PROTOCOL_VIOLATION FT_CRYPTO) else HOk c rest
-      | None => HOk c rest
+      | Some v => if negb (v =? MAX_EARLY_DATA) then LExn (XQuic EC_PROTOCOL_VIOLATION FT_CRYPTO) else LOk c rest
+      | None => LOk c rest
       end).
 
 (* ---- server handlers ------------------------------------------------------------------------------ *)
 Definition digest_size (cipher : Z) : Z := if cipher =? CS_AES_256_GCM_SHA384 then 48 else 32.
 
-Definition server_handle_hello (g : tcfg) (c : tctx) (o : orc) (msg : list Z) : hres :=
+Definition server_handle_hello (g : tcfg) (c : tctx) (o : orc) (msg : list Z) : lres :=
   parsed (pull_client_hello msg) (fun h rest =>
     match negotiate (g_cipher_suites g) (Some (ch_cipher_suites h)) with
-    | None => HExn (XAlert AD_handshake_failure) | Some cipher =>
+    | None => LExn (XAlert AD_handshake_failure) | Some cipher =>
     match negotiate default_legacy_compression_methods (Some (ch_compression h)) with
-    | None => HExn (XAlert AD_handshake_failure) | Some _ =>
+    | None => LExn (XAlert AD_handshake_failure) | Some _ =>
     let psk_mode := negotiate default_psk_key_exchange_modes (ch_psk_modes h) in
     match negotiate (g_key_sigs g) (ch_sigalgs h) with
-    | None => HExn (XAlert AD_handshake_failure) | Some _ =>
+    | None => LExn (XAlert AD_handshake_failure) | Some _ =>
     match negotiate default_supported_versions (ch_versions h) with
-    | None => HExn (XAlert AD_protocol_version) | Some _ =>
+    | None => LExn (XAlert AD_protocol_version) | Some _ =>
     if (match g_alpn g with
         | Some mine => match negotiate_bytes mine (ch_alpn h) with None => true | Some _ => false end
         | None => false end)
-    then HExn (XAlert AD_handshake_failure) else
+    then LExn (XAlert AD_handshake_failure) else
     match alpn_handler g o (ch_other h) with
-    | Some e => HExn e | None =>
+    | Some e => LExn e | None =>
     (* PSK: Ok resumed | the exception *)
     let use_psk := g_fetcher g && (match psk_mode with Some _ => true | None => false end)
                    && (match ch_psk h with Some (ni, nb) => (ni =? 1) && (nb =? 1) | None => false end)
                    && (o_ticket o =? cipher) in
-    if use_psk && (Zlen msg - Zlen rest - digest_size cipher - 3 <? 0) then HExn XBuf   (* input_buf.data_slice *)
-    else if use_psk && negb (o_binder o) then HExn (XAlert AD_handshake_failure)
+    if use_psk && (Zlen msg - Zlen rest - digest_size cipher - 3 <? 0) then LExn XBuf   (* input_buf.data_slice *)
+    else if use_psk && negb (o_binder o) then LExn (XAlert AD_handshake_failure)
     else
       match server_exchange (o_share o) (match ch_key_share h with Some l => l | None => [] end) with
-      | Some e => HExn e
+      | Some e => LExn e
       | None =>
-          HOk (mkCtx (if g_reqcert g then SERVER_EXPECT_CERTIFICATE else SERVER_EXPECT_FINISHED)
+          LOk (mkCtx (if g_reqcert g then SERVER_EXPECT_CERTIFICATE else SERVER_EXPECT_FINISHED)
                      (t_buf c) (use_psk || t_resumed c) (t_kpsk c) (t_kproxy c) 3 (t_peer_cert c)) rest
       end
     end end end end end).
 
-Definition server_handle_certificate (g : tcfg) (c : tctx) (o : orc) (msg : list Z) : hres :=
+Definition server_handle_certificate (g : tcfg) (c : tctx) (o : orc) (msg : list Z) : lres :=
   parsed (pull_certificate msg) (fun certs rest =>
     need_schedule c
       match certs with
-      | [] => HOk (set_state c SERVER_EXPECT_FINISHED) rest
+      | [] => LOk (set_state c SERVER_EXPECT_FINISHED) rest
       | _ :: _ =>
           match set_peer_certificate o certs with
-          | Some e => HExn e
-          | None => HOk (set_state (set_peer_cert c) SERVER_EXPECT_CERTIFICATE_VERIFY) rest
+          | Some e => LExn e
+          | None => LOk (set_state (set_peer_cert c) SERVER_EXPECT_CERTIFICATE_VERIFY) rest
           end
       end).
 
-Definition server_handle_certificate_verify (g : tcfg) (c : tctx) (o : orc) (msg : list Z) : hres :=
+Definition server_handle_certificate_verify (g : tcfg) (c : tctx) (o : orc) (msg : list Z) : lres :=
   parsed (pull_certificate_verify msg) (fun v rest =>
     match check_certificate_verify g c o (fst v) with
-    | Some e => HExn e
-    | None => need_schedule c (HOk (set_state c SERVER_EXPECT_FINISHED) rest)
+    | Some e => LExn e
+    | None => need_schedule c (LOk (set_state c SERVER_EXPECT_FINISHED) rest)
     end).
 
-Definition server_handle_finished (g : tcfg) (c : tctx) (o : orc) (msg : list Z) : hres :=
+Definition server_handle_finished (g : tcfg) (c : tctx) (o : orc) (msg : list Z) : lres :=
   parsed (pull_finished msg) (fun _ rest =>
-    if negb (o_mac o) then HExn (XAlert AD_decrypt_error)
-    else need_schedule c (HOk (set_state c SERVER_POST_HANDSHAKE) rest)).
+    if negb (o_mac o) then LExn (XAlert AD_decrypt_error)
+    else need_schedule c (LOk (set_state c SERVER_POST_HANDSHAKE) rest)).
 
 (* _client_send_hello: reached through handle_message's CLIENT_HANDSHAKE_START shortcut only *)
 Definition client_send_hello (g : tcfg) (c : tctx) : tctx :=
   mkCtx CLIENT_EXPECT_SERVER_HELLO (t_buf c) (t_resumed c) (g_psk g) true 1 (t_peer_cert c).
 
 (* exhaustive over the GENERATED handler type *)
-Definition run_handler (patched : bool) (h : TlsDispatch.handler) (g : tcfg) (c : tctx) (o : orc) (msg : list Z) : hres :=
+Definition run_tls_handler (patched : bool) (h : TlsDispatch.handler) (g : tcfg) (c : tctx) (o : orc) (msg : list Z) : lres :=
   match h with
   | H_client_handle_hello => client_handle_hello g c o msg
   | H_client_handle_encrypted_extensions => client_handle_encrypted_extensions g c o msg
@@ -352,7 +352,7 @@ Definition run_handler (patched : bool) (h : TlsDispatch.handler) (g : tcfg) (c 
   | H_server_handle_certificate => server_handle_certificate g c o msg
   | H_server_handle_certificate_verify => server_handle_certificate_verify g c o msg
   | H_server_handle_finished => server_handle_finished g c o msg
-  | H_client_send_hello => HOk (client_send_hello g c) []       (* never dispatched by message type *)
+  | H_client_send_hello => LOk (client_send_hello g c) []       (* never dispatched by message type *)
   end.
 
 (* ---- _handle_reassembled_message: dispatch, handler, `assert input_buf.eof()` ------------------ *)
@@ -365,9 +365,9 @@ Definition handle_reassembled (patched : bool) (g : tcfg) (c : tctx) (o : orc) (
   | DUnexpected => MExn (XAlert AD_unexpected_message)
   | DFallthrough => match msg with [] => MOk c | _ :: _ => MExn (XOther TX_AssertionError) end
   | DHandler h =>
-      match run_handler patched h g c o msg with
-      | HExn e => MExn e
-      | HOk c' rest => match rest with [] => MOk c' | _ :: _ => MExn (XOther TX_AssertionError) end
+      match run_tls_handler patched h g c o msg with
+      | LExn e => MExn e
+      | LOk c' rest => match rest with [] => MOk c' | _ :: _ => MExn (XOther TX_AssertionError) end
       end
   end.
 
